@@ -2,14 +2,21 @@ package main
 
 import (
 	"bytes"
+	"compress/gzip"
 	"encoding/binary"
 	"encoding/hex"
 	"encoding/json"
 	"fmt"
 	"math"
+	"os"
+	"path/filepath"
 	"reflect"
+	"runtime/metrics"
 	"strings"
 	"sync"
+	"sync/atomic"
+	"syscall"
+	"time"
 
 	"github.com/safing/portbase/database/record"
 	"github.com/safing/portbase/formats/dsd"
@@ -68,9 +75,10 @@ type c08MetaLike struct {
 }
 
 var c08stats struct {
-	rt, rtWrapper, rtTyped, rtCarried, rtDeleted, rtFmtHigh, unwraps, reparses int64
-	rtKeyColon                                                                 int64
-	hostile, hostileOK, hostileErr, payloadMax                                 int64
+	rt, rtWrapper, rtTyped, rtCarried, rtDeleted, rtFmtHigh, unwraps, reparses                                                                                            int64
+	rtKeyColon                                                                                                                                                            int64
+	typedLarge, typedStoredMax, unwrapHostile, unwrapHostileErr, unwrapSkippedMsgPack, canaries, allocMax, allocRatioMax, allocPermille, allocCalls, gzipFamily, lenBombs int64
+	hostile, hostileOK, hostileErr, payloadMax                                                                                                                            int64
 }
 
 func init() {
@@ -80,7 +88,9 @@ func init() {
 		rule: "round trip: PRNG records = meta tuple (four int64 from {0,+-1,+-2^31,+-2^53,min,max} and PRNG values, both flags, deleted >0 / relative <0 / 0) x key (compared with the original full key; database-key part ASCII/UTF-8/empty, with one or several ':' incl. leading/trailing/IPv6-like/host:port, and other separators) x " +
 			"{wrapped raw data with every format id 0..255 and payloads empty/1 byte/<=4KiB/64KiB, typed harness struct via Base.MarshalRecord, typed struct carried as JSON/CBOR/MsgPack}; " +
 			"hostile: every truncation, version byte 0..255, meta length prefix in {0,1,33..37,len-1..len+1,2^31,2^32,2^63-1,2^63,2^64-1,...}, every meta byte flipped five ways, meta format id 0..255, " +
-			"all one- and two-byte format varints, meta re-encoded as JSON/CBOR/MsgPack/YAML/GZIP, and PRNG strings <= 256 B (random / valid prefix + random tail / mutated valid encoding). " +
+			"all one- and two-byte format varints, meta re-encoded as JSON/CBOR/MsgPack/YAML/GZIP, gzip-compressed meta sections with every gzip field corrupted (header bytes, flags, XLEN, deflate bytes and cuts, stored-block LEN/NLEN, CRC32, ISIZE up to 2^32-1), " +
+			"CBOR/MsgPack length headers of up to 2^64-1 at every position of the meta section, and PRNG strings <= 256 B (random / valid prefix + random tail / mutated valid encoding); typed records in size classes up to 1 MiB. " +
+			"Every parse (and Unwrap of hostile-parsed records, MsgPack excepted) runs under an allocation monitor (bound 160 MiB + 32 KiB per input byte) and must give the same record / error text for the exact-capacity and the canary-embedded copy. " +
 			"distinct = distinct (class,input); non-trivial = the input was parsed from both an exact-capacity and a canary-embedded copy and every returned record was compared (round trip: with the original; hostile: with its own re-serialisation)",
 		finish: func(cfg vlib.Cfg, r *vlib.Report) {
 			r.Floor(r.Counter("roundtrips") >= int64(cfg.N(10000, 100000)), "roundtrips=%d", r.Counter("roundtrips"))
@@ -91,6 +101,8 @@ func init() {
 			r.Floor(r.SeenCount("meta_section_formats_accepted") >= 5, "meta section formats accepted: %d", r.SeenCount("meta_section_formats_accepted"))
 			r.Floor(r.Counter("roundtrips_key_with_colon_in_db_key") > 1000, "roundtrips_key_with_colon_in_db_key=%d", r.Counter("roundtrips_key_with_colon_in_db_key"))
 			r.Assume("typed harness schema: valid UTF-8 strings, finite floats, integers of all widths, byte slices, slices, maps, pointer and nested struct (values a JSON document can carry)")
+			r.Assume("allocation monitor = runtime/metrics /gc/heap/allocs:bytes read before and after each call; children run under RLIMIT_AS 6 GiB (plain, checkptr) and a 1 GiB resident-set watchdog (all builds), whose firing is reported as a process-fatal violation")
+			r.Assume("Unwrap of hostile-parsed records with a MsgPack payload is not exercised (the MsgPack decoder's allocation by length header is C09's known finding)")
 			r.Assume("for deleted records the format identifier is not stored and therefore not compared; payloads above 64 KiB are not generated")
 		},
 	}
@@ -265,6 +277,49 @@ func c08Typed(r *vlib.Rand) *c08Rec {
 		t.N = &n
 	}
 	t.Sub = c08Nest(r)
+	// size classes: the stored form of most typed records is a few hundred bytes; one in
+	// four is made large (1 KiB .. 64 KiB, rarely 1 MiB) by a long string, a big byte
+	// slice or many-element slices / maps
+	if r.Chance(1, 4) {
+		size := r.Range(1<<10, 8<<10)
+		switch {
+		case r.Chance(1, 60):
+			size = 1 << 20
+		case r.Chance(1, 6):
+			size = r.Range(8<<10, 64<<10)
+		}
+		c08stats.typedLarge++
+		kind := r.Intn(5)
+		if kind >= 2 && size > 256<<10 {
+			size = 256 << 10 // many-element values: stay below the CBOR decoder's default element limit
+		}
+		switch kind {
+		case 0:
+			var sb strings.Builder
+			for sb.Len() < size {
+				sb.WriteString(c08String(r, 40))
+				sb.WriteByte('x')
+			}
+			t.S = sb.String()
+		case 1:
+			t.Bytes = r.Bytes(size)
+		case 2:
+			for len(t.L)*6 < size {
+				t.L = append(t.L, c08String(r, 8))
+			}
+		case 3:
+			for len(t.IL)*8 < size {
+				t.IL = append(t.IL, int32(c08Int64(r)))
+			}
+		default:
+			if t.M == nil {
+				t.M = map[string]int64{}
+			}
+			for i := 0; len(t.M)*16 < size && i < size; i++ {
+				t.M[fmt.Sprintf("k%d-%s", i, c08String(r, 4))] = c08Int64(r)
+			}
+		}
+	}
 	return t
 }
 
@@ -304,6 +359,150 @@ func c08MetaString(m *record.Meta) string {
 		!m.CheckPermission(true, false), !m.CheckPermission(false, true))
 }
 
+// ---------------------------------------------------------------------------------
+// allocation monitor and memory ceilings
+//
+// "never ... trusts an unvalidated length field": every parse call is bracketed by two
+// reads of the runtime's cumulative allocation counter (runtime/metrics
+// /gc/heap/allocs:bytes; no stop-the-world; large objects are accounted immediately,
+// small ones when their span is flushed - exactly the resolution needed here). A call on
+// n input bytes may allocate c08AllocBase + c08AllocPerByte*n bytes; the bound was set
+// from the maxima observed on the unchanged tree with a factor > 8 of headroom: 16.2 MiB
+// in one call, reached both by a 3.6 KiB gzip member that inflates 1:1000 into a doubling
+// buffer and by a 34-byte MsgPack metadata section with a bin32/str32 header of 2^32-1 (the
+// MsgPack decoder reads announced lengths in chunks that grow to a few MiB before it
+// notices the end of input - bounded, independent of the claim; its unbounded cases are
+// C09's known finding).
+//
+// So that a decoder which does trust a length ends the child within seconds instead of
+// thrashing: plain and checkptr children run under RLIMIT_AS (the allocation fails, the
+// Go runtime dies with "out of memory", the engine names the input by its journal
+// re-run); every build additionally has a resident-set watchdog (the sanitizer builds
+// cannot live under an address-space limit) that names the current input and exits.
+
+const (
+	c08AllocBase    = 160 << 20
+	c08AllocPerByte = 32768
+	c08ASLimit      = 6 << 30 // RLIMIT_AS of plain/checkptr children (an unchanged-tree child peaks at ~2 GiB of address space: cgo thread arenas)
+	c08RSSLimit     = 1 << 30 // resident-set ceiling enforced by the watchdog (all builds; an unchanged-tree child stays below 200 MiB)
+)
+
+var (
+	c08AllocSample = []metrics.Sample{{Name: "/gc/heap/allocs:bytes"}}
+	c08SetupOnce   sync.Once
+	c08Current     atomic.Pointer[c08Call]
+	c08RSSMax      atomic.Int64
+	c08VMMax       atomic.Int64
+)
+
+type c08Call struct {
+	class, fn string
+	input     []byte
+}
+
+func c08Allocated() uint64 {
+	metrics.Read(c08AllocSample)
+	if c08AllocSample[0].Value.Kind() != metrics.KindUint64 {
+		return 0
+	}
+	return c08AllocSample[0].Value.Uint64()
+}
+
+func c08RSS() int64 {
+	b, err := os.ReadFile("/proc/self/statm")
+	if err != nil {
+		return 0
+	}
+	var size, rss int64
+	fmt.Sscan(string(b), &size, &rss)
+	if vm := size * int64(os.Getpagesize()); vm > c08VMMax.Load() {
+		c08VMMax.Store(vm)
+	}
+	return rss * int64(os.Getpagesize())
+}
+
+// c08Persist writes what the child has observed so far (without the completion marker):
+// a child that is later ended by the address-space limit or the watchdog still delivers
+// the violations it had already recorded.
+func c08Persist(c *ctx) {
+	if c.dir == "" {
+		return
+	}
+	if b, err := json.Marshal(c.b); err == nil {
+		tmp := filepath.Join(c.dir, "out.json.tmp")
+		if os.WriteFile(tmp, b, 0o644) == nil {
+			_ = os.Rename(tmp, filepath.Join(c.dir, "out.json"))
+		}
+	}
+}
+
+// c08Setup installs the ceilings once per child process.
+func c08Setup(c *ctx) {
+	c08SetupOnce.Do(func() {
+		if c.spec.Kind == "plain" || c.spec.Kind == "checkptr" {
+			lim := syscall.Rlimit{Cur: c08ASLimit, Max: c08ASLimit}
+			if err := syscall.Setrlimit(syscall.RLIMIT_AS, &lim); err != nil {
+				c.b.Note("C08: setrlimit(RLIMIT_AS) failed: %v", err)
+			} else {
+				c.b.Count("children_under_rlimit_as", 1)
+			}
+		}
+		go func() {
+			for {
+				time.Sleep(20 * time.Millisecond)
+				rss := c08RSS()
+				if rss > c08RSSMax.Load() {
+					c08RSSMax.Store(rss)
+				}
+				if rss > c08RSSLimit {
+					cur := c08Current.Load()
+					msg := "fatal error: C08 memory watchdog: resident set above the ceiling during a codec call\n"
+					if cur != nil {
+						msg += fmt.Sprintf("C08 memory watchdog: current call %s on class %s input %s (%d bytes), resident %d MiB\n", cur.fn, cur.class,
+							hex.EncodeToString(trunc(cur.input, 4096)), len(cur.input), rss>>20)
+					}
+					os.Stderr.WriteString(msg)
+					os.Exit(97)
+				}
+			}
+		}()
+	})
+}
+
+// c08Monitored runs one portbase call that consumes n input bytes: guarded by c.call
+// (journal + panic), with the allocation monitor around it. excessive = the monitor fired.
+func c08Monitored(c *ctx, class string, id []byte, fn string, n int, call func()) (panicked, excessive bool) {
+	c08Setup(c)
+	c08Current.Store(&c08Call{class: class, fn: fn, input: id})
+	before := c08Allocated()
+	panicked = c.call(class, id, call)
+	got := int64(c08Allocated() - before)
+	c08Current.Store(nil)
+	c08stats.allocCalls++
+	if got > c08stats.allocMax {
+		c08stats.allocMax = got
+	}
+	if n >= 16 {
+		if r := got / int64(n); r > c08stats.allocRatioMax {
+			c08stats.allocRatioMax = r
+		}
+	}
+	bound := int64(c08AllocBase) + int64(c08AllocPerByte)*int64(n)
+	if pm := got * 1000 / bound; pm > c08stats.allocPermille {
+		c08stats.allocPermille = pm
+		if os.Getenv("C08_ALLOC_DEBUG") != "" {
+			fmt.Fprintf(os.Stderr, "ALLOCDBG pm=%d fn=%s n=%d got=%d class=%s id=%x\n", pm, fn, n, got, class, trunc(id, 48))
+		}
+	}
+	if got > bound {
+		excessive = true
+		c.b.Violation("C08:alloc-out-of-proportion:"+fn, fmt.Sprintf("%s allocated %d bytes (%d MiB) while processing an input of %d bytes (bound %d MiB): an unvalidated length field is trusted", fn, got, got>>20, n, bound>>20),
+			map[string]any{"class": class, "input_hex": hex.EncodeToString(trunc(id, 65536)), "input_len": n, "allocated_bytes": got, "bound_bytes": bound, "build": c.spec.Kind})
+		c08Persist(c)
+	}
+	return panicked, excessive
+}
+
 // c08Expect is what a parse of a stored record has to yield.
 type c08Expect struct {
 	key     string
@@ -340,7 +539,7 @@ func c08ParseBoth(c *ctx, class string, id []byte, path string, dbName, dbKey st
 		}
 		var w *record.Wrapper
 		var err error
-		if c.call(class, id, func() { w, err = record.NewRawWrapper(dbName, dbKey, view) }) {
+		if p, x := c08Monitored(c, class, id, "NewRawWrapper", len(stored), func() { w, err = record.NewRawWrapper(dbName, dbKey, view) }); p || x {
 			return nil
 		}
 		switch {
@@ -479,6 +678,9 @@ func c08RoundTrip(c *ctx, seed, caseNo uint64) {
 		b.Violation("C08:roundtrip-marshal-error:"+path, "MarshalRecord failed: "+err.Error(), detail(nil))
 		return
 	}
+	if typed != nil && int64(len(stored)) > c08stats.typedStoredMax {
+		c08stats.typedStoredMax = int64(len(stored))
+	}
 	if path == "Base" && !deleted {
 		// the data of a typed record is its JSON document (independent expectation)
 		want.data, err = json.Marshal(typed)
@@ -589,7 +791,7 @@ func c08Parse(c *ctx, in []byte) {
 		}
 		var w *record.Wrapper
 		var err error
-		if c.call("c08.parse", in, func() { w, err = record.NewRawWrapper("db", "hostile/key", view) }) {
+		if p, x := c08Monitored(c, "c08.parse", in, "NewRawWrapper", len(in), func() { w, err = record.NewRawWrapper("db", "hostile/key", view) }); p || x {
 			return
 		}
 		switch {
@@ -618,6 +820,9 @@ func c08Parse(c *ctx, in []byte) {
 		return
 	case a.err != nil:
 		c08stats.hostileErr++
+		if !c08SameErrorText(c, in, "NewRawWrapper", a.err, e.err) {
+			return
+		}
 		msg := a.err.Error()
 		if i := strings.Index(msg, ":"); i > 0 {
 			msg = msg[:i]
@@ -645,8 +850,64 @@ func c08Parse(c *ctx, in []byte) {
 		if !c08Reparse(c, "c08.parse", in, "totality", a.w) {
 			return
 		}
+		if !c08UnwrapHostile(c, in, a.w, e.w) {
+			return
+		}
 	}
 	b.Distinct([]byte("h"), in)
+}
+
+// c08SameErrorText: the error returned for the exact-capacity copy and for the view
+// embedded in a canary-filled buffer must read the same and must not show canary bytes -
+// an error text that quotes bytes from behind the input has read beyond the input.
+func c08SameErrorText(c *ctx, in []byte, fn string, exactErr, embErr error) bool {
+	x, m := fmt.Sprint(exactErr), fmt.Sprint(embErr)
+	detail := map[string]any{"class": "c08.parse", "input_hex": hex.EncodeToString(in), "build": c.spec.Kind, "error_exact_capacity": x, "error_embedded": m}
+	if x != m {
+		c.b.Violation("C08:error-text-depends-on-surroundings:"+fn, fmt.Sprintf("%s of the same %d bytes returns %q for an exact-capacity slice and %q for a sub-slice of a larger buffer: the text contains bytes from behind the input", fn, len(in), x, m), detail)
+		return false
+	}
+	if bytes.IndexByte(in, canaryByte) < 0 && (strings.Contains(m, "a7 a7") || strings.Contains(m, "\xa7\xa7") || strings.Contains(m, "\\xa7\\xa7")) {
+		c.b.Violation("C08:canary-in-error-text:"+fn, fmt.Sprintf("%s error text %q shows bytes from behind the input", fn, m), detail)
+		return false
+	}
+	return true
+}
+
+// c08UnwrapHostile unwraps a record parsed from hostile bytes into the typed harness
+// struct, for the exact and the embedded parse: value or error, no panic, allocation in
+// proportion, and the same outcome (value, error text) for both. MsgPack payloads are left
+// to C09 (its known finding: the MsgPack decoder allocates by length header).
+func c08UnwrapHostile(c *ctx, in []byte, wa, we *record.Wrapper) bool {
+	if wa.Meta().IsDeleted() {
+		return true
+	}
+	if wa.Format == dsd.MsgPack {
+		c08stats.unwrapSkippedMsgPack++
+		return true
+	}
+	c08stats.unwrapHostile++
+	ra, re := &c08Rec{}, &c08Rec{}
+	var ea, ee error
+	if p, x := c08Monitored(c, "c08.parse", in, "Unwrap", len(in), func() { ea = record.Unwrap(wa, ra) }); p || x {
+		return false
+	}
+	if p, x := c08Monitored(c, "c08.parse", in, "Unwrap", len(in), func() { ee = record.Unwrap(we, re) }); p || x {
+		return false
+	}
+	detail := map[string]any{"class": "c08.parse", "input_hex": hex.EncodeToString(in), "build": c.spec.Kind, "error_exact_capacity": fmt.Sprint(ea), "error_embedded": fmt.Sprint(ee)}
+	switch {
+	case (ea == nil) != (ee == nil):
+		c.b.Violation("C08:totality-depends-on-surroundings:Unwrap", fmt.Sprintf("Unwrap of the record parsed from the same bytes gives error=%v (exact-capacity input) and error=%v (embedded input)", ea, ee), detail)
+		return false
+	case ea != nil:
+		c08stats.unwrapHostileErr++
+		return c08SameErrorText(c, in, "Unwrap", ea, ee)
+	case !reflect.DeepEqual(ra, re):
+		c.b.Violation("C08:totality-depends-on-surroundings:Unwrap", "Unwrap of the record parsed from the same bytes yields different values for the exact-capacity and the embedded input", detail)
+		return false
+	}
+	return true
 }
 
 func c08Block(body []byte) []byte { return append(refEncode(uint64(len(body))), body...) }
@@ -705,6 +966,178 @@ func c08Bases(c *ctx) (bases [][]byte) {
 	return bases
 }
 
+// tags of generated hostile inputs
+const (
+	c08Plain = iota
+	c08Claim // a length field claims 256..400 MiB: run first in every shard (monitor canary)
+	c08Last  // a length field claims a gigabyte or more: run last, in shard 0 only
+)
+
+// c08Gzip is the harness-side compressor (compress/gzip, not portbase).
+func c08Gzip(p []byte) []byte {
+	var buf bytes.Buffer
+	w, _ := gzip.NewWriterLevel(&buf, gzip.BestCompression)
+	_, _ = w.Write(p)
+	_ = w.Close()
+	return buf.Bytes()
+}
+
+// c08WithMeta frames a metadata section (dsd blob) as a stored record.
+func c08WithMeta(section []byte) []byte {
+	return cat([]byte{1}, c08Block(section), []byte{dsd.JSON}, []byte(`{"k":1}`))
+}
+
+func c08LE32(v uint32) []byte { var b [4]byte; binary.LittleEndian.PutUint32(b[:], v); return b[:] }
+
+// c08GzipFamily produces stored records whose metadata section is a gzip-compressed dsd
+// blob ('Z' + RFC 1952 member), valid and with single-field corruptions of every gzip
+// field: header bytes and flag bits (FEXTRA/XLEN, FNAME, FCOMMENT, FHCRC), deflate stream
+// (byte flips, truncations, stored-block LEN/NLEN), CRC32 and ISIZE trailer; plus other
+// inner blobs, multi-member streams, legitimately highly compressible sections, and records
+// whose data section is compressed. emit(input, last): last = claims of a gigabyte and
+// more, which are run at the very end of shard 0 only.
+func c08GzipFamily(emit func(in []byte, tag int)) {
+	metas := []*record.Meta{{Created: 1600000000, Modified: 1600000001, Expires: 1700000000}, {Created: 1, Modified: 2, Expires: 3, Deleted: 1600000002},
+		{Created: math.MinInt64, Modified: math.MaxInt64, Expires: -1, Deleted: -5}}
+	z := func(gz []byte) []byte { return c08WithMeta(cat([]byte{dsd.GZIP}, gz)) }
+	for mi, m := range metas {
+		g34, _ := m.GenCodeMarshal(nil)
+		inner := cat([]byte{dsd.GenCode}, g34)
+		gz := c08Gzip(inner)
+		n := len(gz)
+		hdr, body, crc, isize := gz[:10], gz[10:n-8], gz[n-8:n-4], gz[n-4:]
+		emit(z(gz), c08Plain)
+		// ISIZE trailer (the one length field of the container format)
+		for _, v := range []uint32{0, 1, uint32(len(inner)) - 1, uint32(len(inner)) + 1, 34, 255, 256, 65535, 65536, 1 << 20, 1 << 24} {
+			emit(z(cat(hdr, body, crc, c08LE32(v))), c08Plain)
+		}
+		for _, v := range []uint32{256 << 20, 400 << 20} { // above what any input of this size may make the decoder allocate
+			emit(z(cat(hdr, body, crc, c08LE32(v))), c08Claim)
+		}
+		if mi == 0 {
+			for _, v := range []uint32{1 << 30, 1 << 31, math.MaxUint32} {
+				emit(z(cat(hdr, body, crc, c08LE32(v))), c08Last)
+			}
+		}
+		// CRC32
+		emit(z(cat(hdr, body, c08LE32(0), isize)), c08Plain)
+		emit(z(cat(hdr, body, c08LE32(math.MaxUint32), isize)), c08Plain)
+		for i := 0; i < 4; i++ {
+			x := cat(gz)
+			x[n-8+i] ^= 0x01
+			emit(z(x), c08Plain)
+		}
+		// header bytes and flags
+		for i := 0; i < 10; i++ {
+			for _, f := range []func(byte) byte{func(b byte) byte { return 0 }, func(b byte) byte { return 0xff }, func(b byte) byte { return b ^ 1 }, func(b byte) byte { return b ^ 0x80 }} {
+				x := cat(gz)
+				x[i] = f(x[i])
+				emit(z(x), c08Plain)
+			}
+		}
+		for bit := 0; bit < 8; bit++ {
+			x := cat(gz)
+			x[3] |= 1 << uint(bit)
+			emit(z(x), c08Plain)
+		}
+		flagged := func(flg byte, extra []byte) []byte {
+			h := cat(hdr)
+			h[3] = flg
+			return z(cat(h, extra, body, crc, isize))
+		}
+		for _, xlen := range []uint16{0, 1, 4, 255, 4096, 65535} { // FEXTRA with XLEN
+			l := []byte{byte(xlen), byte(xlen >> 8)}
+			emit(flagged(0x04, l), c08Plain)
+			if xlen <= 4096 {
+				emit(flagged(0x04, cat(l, bytes.Repeat([]byte{0x55}, int(xlen)))), c08Plain)
+			}
+		}
+		emit(flagged(0x08, []byte("name\x00")), c08Plain)
+		emit(flagged(0x08, []byte("unterminated name")), c08Plain)
+		emit(flagged(0x10, []byte("comment\x00")), c08Plain)
+		emit(flagged(0x10, bytes.Repeat([]byte("c"), 600)), c08Plain)
+		emit(flagged(0x02, []byte{0x12, 0x34}), c08Plain)
+		emit(flagged(0x1e, cat([]byte{2, 0, 7, 7}, []byte("n\x00c\x00"), []byte{0, 0})), c08Plain)
+		// deflate stream
+		for i := range body {
+			for _, f := range []func(byte) byte{func(b byte) byte { return ^b }, func(b byte) byte { return b ^ 1 }, func(b byte) byte { return 0 }, func(b byte) byte { return 0xff }} {
+				x := cat(body)
+				x[i] = f(x[i])
+				emit(z(cat(hdr, x, crc, isize)), c08Plain)
+			}
+			emit(z(cat(hdr, body[:i], crc, isize)), c08Plain) // stream cut, trailer kept
+		}
+		for k := 0; k <= n; k++ { // member cut anywhere
+			emit(z(gz[:k]), c08Plain)
+		}
+		// stored (uncompressed) deflate block: 01 LEN NLEN data
+		stored := func(l, nl uint16, data []byte) []byte {
+			return z(cat(hdr, []byte{0x01, byte(l), byte(l >> 8), byte(nl), byte(nl >> 8)}, data, crc, isize))
+		}
+		L := uint16(len(inner))
+		emit(stored(L, ^L, inner), c08Plain)
+		for _, l := range []uint16{0, 1, L - 1, L + 1, 0x7fff, 0xffff} {
+			emit(stored(l, ^l, inner), c08Plain)
+			emit(stored(l, ^L, inner), c08Plain)
+			emit(stored(L, ^l, inner), c08Plain)
+		}
+		// several members; trailing garbage
+		emit(z(cat(gz, gz)), c08Plain)
+		emit(z(cat(gz, gz[:12])), c08Plain)
+		emit(z(cat(gz, []byte{0, 0, 0, 0})), c08Plain)
+		// the data section compressed (opaque to the record parser)
+		rw, _ := record.NewWrapper("db:hostile/key", m, dsd.GZIP, gz)
+		if out, err := rw.MarshalRecord(rw); err == nil {
+			emit(out, c08Plain)
+			for _, v := range []uint32{0, 1 << 24, 400 << 20, math.MaxUint32} {
+				emit(cat(out[:len(out)-4], c08LE32(v)), c08Plain)
+			}
+		}
+	}
+	// other inner blobs
+	g34, _ := metas[0].GenCodeMarshal(nil)
+	js := []byte(`{"Created":1600000000,"Modified":1600000001,"Expires":0,"Deleted":0}`)
+	for _, inner := range [][]byte{
+		nil, {dsd.GenCode}, cat([]byte{dsd.GenCode}, g34[:33]), cat([]byte{dsd.GenCode}, g34, []byte{1, 2, 3}), cat([]byte{dsd.JSON}, js), cat([]byte{dsd.JSON}, js[:20]),
+		cat([]byte{dsd.YAML}, []byte("Created: 5\nDeleted: 0\n")), {dsd.RAW, 1, 2, 3}, {dsd.AUTO, 1, 2, 3}, {dsd.LIST, 1}, {0x80, 0x01, 1},
+		cat([]byte{dsd.GZIP}, c08Gzip(cat([]byte{dsd.GenCode}, g34))), // nested compression
+		cat([]byte{dsd.MsgPack}, []byte{0xdf, 0xff, 0xff, 0xff, 0xff}), cat([]byte{dsd.MsgPack}, []byte{0x81, 0xa1, 0x78, 0xc6, 0xff, 0xff, 0xff, 0xff}),
+		cat([]byte{dsd.CBOR}, []byte{0xbb, 0xff, 0xff, 0xff, 0xff, 0xff, 0xff, 0xff, 0xff}), cat([]byte{dsd.CBOR}, []byte{0xa1, 0x61, 0x78, 0x5a, 0xff, 0xff, 0xff, 0xff}),
+		// legitimately compressible sections (the calibration of the allocation bound)
+		cat([]byte{dsd.GenCode}, g34, make([]byte, 64<<10)), cat([]byte{dsd.GenCode}, g34, make([]byte, 1<<20)), cat([]byte{dsd.GenCode}, g34, make([]byte, 3500<<10)),
+		cat([]byte{dsd.JSON}, bytes.Repeat([]byte(" "), 2<<20), js),
+	} {
+		emit(z(c08Gzip(inner)), c08Plain)
+	}
+}
+
+// c08LengthBombs replaces every byte of a CBOR / MsgPack metadata section by a length
+// header that announces far more than follows (the dsd-level length fields).
+func c08LengthBombs(emit func(in []byte, tag int)) {
+	bombs := map[uint8][][]byte{
+		dsd.MsgPack: {{0xc6, 0xff, 0xff, 0xff, 0xff}, {0xc6, 0x7f, 0xff, 0xff, 0xff}, {0xdb, 0xff, 0xff, 0xff, 0xff}, {0xdd, 0xff, 0xff, 0xff, 0xff}, {0xdf, 0xff, 0xff, 0xff, 0xff},
+			{0xdf, 0x00, 0xff, 0xff, 0xff}, {0xdc, 0xff, 0xff}, {0xde, 0xff, 0xff}, {0xc5, 0xff, 0xff}, {0xda, 0xff, 0xff}, {0xc9, 0xff, 0xff, 0xff, 0xff, 0x01}, {0xc4, 0xff}, {0xd9, 0xff}},
+		dsd.CBOR: {{0x5b, 0xff, 0xff, 0xff, 0xff, 0xff, 0xff, 0xff, 0xff}, {0x5a, 0xff, 0xff, 0xff, 0xff}, {0x7b, 0x7f, 0xff, 0xff, 0xff, 0xff, 0xff, 0xff, 0xff}, {0x7a, 0xff, 0xff, 0xff, 0xff},
+			{0x9b, 0xff, 0xff, 0xff, 0xff, 0xff, 0xff, 0xff, 0xff}, {0x9a, 0x00, 0xff, 0xff, 0xff}, {0xbb, 0xff, 0xff, 0xff, 0xff, 0xff, 0xff, 0xff, 0xff}, {0xba, 0x00, 0xff, 0xff, 0xff},
+			{0x59, 0xff, 0xff}, {0x79, 0xff, 0xff}, {0x99, 0xff, 0xff}, {0xb9, 0xff, 0xff}, {0x5f}, {0x9f}, {0xbf}, {0xdb, 0xff, 0xff, 0xff, 0xff, 0xff, 0xff, 0xff, 0xff}},
+	}
+	ml := c08MetaLike{1600000000, 1600000001, -1, 0}
+	for _, f := range []uint8{dsd.MsgPack, dsd.CBOR} {
+		sec, err := dsd.Dump(&ml, f)
+		if err != nil {
+			continue
+		}
+		for i := 1; i <= len(sec); i++ {
+			for _, bomb := range bombs[f] {
+				if i < len(sec) {
+					emit(c08WithMeta(cat(sec[:i], bomb, sec[i+1:])), c08Plain)
+				}
+				emit(c08WithMeta(cat(sec[:i], bomb)), c08Plain)
+			}
+		}
+	}
+}
+
 func runC08(c *ctx) {
 	s, ns := c.spec.Shard, c.spec.NShards
 	idx := 0
@@ -740,8 +1173,17 @@ func runC08(c *ctx) {
 			c08Parse(c, in)
 		}
 	}
+	// every shard first parses two records whose gzip size trailer claims 256 / 400 MiB for
+	// 35 bytes: on a tree that trusts the trailer each child reports it through the
+	// allocation monitor before any larger claim can end the process
+	c08GzipFamily(func(in []byte, tag int) {
+		if tag == c08Claim && c08stats.canaries < 2 {
+			c08stats.canaries++
+			c08Parse(c, in)
+		}
+	})
 	try(nil)
-	lens := []uint64{0, 1, 2, 33, 34, 35, 36, 37, 127, 128, 255, 256, 16383, 16384, 1 << 31, 1<<31 - 1, 1 << 32, 1<<63 - 1, 1 << 63, 1<<63 + 1,
+	lens := []uint64{0, 1, 2, 3, 4, 5, 6, 7, 8, 9, 10, 11, 12, 13, 14, 15, 16, 17, 33, 34, 35, 36, 37, 127, 128, 255, 256, 16383, 16384, 1 << 31, 1<<31 - 1, 1 << 32, 1<<63 - 1, 1 << 63, 1<<63 + 1,
 		math.MaxUint64 - 36, math.MaxUint64 - 35, math.MaxUint64 - 1, math.MaxUint64}
 	for bi, bs := range bases {
 		// (a) every truncation
@@ -792,6 +1234,24 @@ func runC08(c *ctx) {
 			}
 		}
 	}
+	// (b') compressed sections and dsd-level length headers
+	var last [][]byte
+	c08GzipFamily(func(in []byte, tag int) {
+		if tag == c08Last {
+			last = append(last, in)
+			return
+		}
+		if mine() {
+			c08stats.gzipFamily++
+			c08Parse(c, in)
+		}
+	})
+	c08LengthBombs(func(in []byte, _ int) {
+		if mine() {
+			c08stats.lenBombs++
+			c08Parse(c, in)
+		}
+	})
 	// (c) PRNG strings
 	r := c.rand("hostile")
 	nh := c.n(160000, 1600000) / ns
@@ -830,6 +1290,16 @@ func runC08(c *ctx) {
 		try(in)
 	}
 
+	// claims of a gigabyte and more: a decoder that trusts them does not survive (address-
+	// space limit / watchdog); they come last and in one shard so that everything else of
+	// the run is still reported
+	if s == 0 {
+		for _, in := range last {
+			c08stats.gzipFamily++
+			c08Parse(c, in)
+		}
+	}
+
 	b := c.b
 	b.Count("roundtrips", c08stats.rt)
 	b.Count("roundtrips_wrapper", c08stats.rtWrapper)
@@ -844,4 +1314,19 @@ func runC08(c *ctx) {
 	b.Count("hostile_parsed_ok", c08stats.hostileOK)
 	b.Count("hostile_rejected", c08stats.hostileErr)
 	b.Max("max_payload_bytes", c08stats.payloadMax)
+	b.Count("roundtrips_typed_large", c08stats.typedLarge)
+	b.Max("max_typed_stored_bytes", c08stats.typedStoredMax)
+	b.Count("hostile_unwraps", c08stats.unwrapHostile)
+	b.Count("hostile_unwraps_rejected", c08stats.unwrapHostileErr)
+	b.Count("hostile_unwraps_skipped_msgpack", c08stats.unwrapSkippedMsgPack)
+	b.Count("alloc_monitored_calls", c08stats.allocCalls)
+	b.Max("alloc_max_bytes_in_one_parse_call", c08stats.allocMax)
+	b.Max("alloc_max_bytes_per_input_byte", c08stats.allocRatioMax)
+	b.Max("alloc_max_permille_of_bound", c08stats.allocPermille)
+	b.Max("max_resident_set_mib", c08RSSMax.Load()>>20)
+	if c.spec.Kind == "plain" || c.spec.Kind == "checkptr" {
+		b.Max("max_address_space_mib_under_6144_limit", c08VMMax.Load()>>20)
+	}
+	b.Count("hostile_gzip_family_inputs", c08stats.gzipFamily)
+	b.Count("hostile_length_header_bombs", c08stats.lenBombs)
 }
